@@ -188,9 +188,23 @@ func c08Gen(rng *rand.Rand, i int) *c08Case {
 	case 3:
 		c.Leak = "flags"
 		first, last := targets[0], targets[len(targets)-1]
-		first.File.Sources[first.Key] = "##!+ is\n##!^ leakprefix\n##!$ leaksuffix\n##!> assemble\n  foo.\n  bar\n"  // also leaves a block open: must fail on its own
+		first.File.Sources[first.Key] = "##!+ is\n##!^ leakprefix\n##!$ leaksuffix\n##!> assemble\n  foo.\n  bar\n" // also leaves a block open: must fail on its own
 		last.File.Sources[last.Key] = "plain.\nwords\n"
 		first.File.Sources[first.Key] = "##!+ is\n##!^ leakprefix\n##!$ leaksuffix\n##!> assemble\n  foo.\n  bar\n##!<\n"
+	}
+	switch (i / 16) % 4 {
+	case 1:
+		// an assembly file that is a symbolic link (to a file outside regex-assembly): --all must treat it like a single invocation does
+		t := targets[rng.Intn(len(targets))]
+		p.Extra["shared/"+t.Key+".ra"] = t.File.Sources[t.Key]
+		p.Extra["regex-assembly/"+t.Key+".ra"] = sut.SymlinkPrefix + "../shared/" + t.Key + ".ra"
+		c.Leak += "+symlink" // tree() writes Extra last, so the link replaces the regular file of the same name
+	case 2:
+		// a file that leaves a block open (closed by the text of an include file): block nesting must not carry over to the next file
+		t := targets[0]
+		t.File.Sources[t.Key] = "##!> assemble\n  openone\n  opentwo\n  ##!> include closer\n"
+		p.Includes["closer"] = "closerword\n##!<\n"
+		c.Leak += "+open-block"
 	}
 	n := len(targets)
 	if c.Cmd == "format" {
